@@ -7,7 +7,7 @@ import random
 from vf import core
 
 THEOREMS = ["mpmc_exactly_once_fifo", "mpmc_pop_returns_oldest", "mpmc_empty_justified",
-            "mpmc_no_deref_reclaimed", "mpmc_aba_safe", "mpmc_hp_safe"]
+            "mpmc_no_deref_reclaimed", "mpmc_aba_safe", "mpmc_gen_counts_allocations", "mpmc_hp_safe"]
 JOIN, PUSH, POP, SCAN = 1, 2, 3, 6
 NODE = 1000
 PUSH_STEPS, POP_STEPS, POP_EMPTY_STEPS = 9, 11, 5
